@@ -9,7 +9,7 @@ From DBG Require Import Spec.Dna Spec.GraphIndex Spec.Unitig Spec.CompressSpec P
   Proofs.ListFacts Proofs.DnaFacts Proofs.KmerAlgebra Proofs.ExtsProofs Proofs.ExtsWalk
   Proofs.CompressBasics Proofs.CompressProofs Proofs.CompressGraphOk Proofs.FilterProofs Proofs.GraphQueryProofs
   Proofs.ValidGraphProofs Proofs.PipelineCheckProofs Proofs.UnitigUnique Proofs.GraphRcProofs
-  Proofs.E2eDefs Proofs.E2eSym Proofs.E2eGraph Proofs.LooseGraph.
+  Proofs.E2eDefs Proofs.E2eSym Proofs.E2eGraph Proofs.E2eTable Proofs.LooseGraph.
 Import ListNotations.
 Local Open Scope nat_scope.
 
@@ -367,3 +367,141 @@ Proof.
   split; [exact G_pal_ends | exact G_links_sym].
 Qed.
 End LV.
+
+(* ---- the two k-mers of a canonical (K+1)-mer ---- *)
+Section BothIn.
+Variable K : nat.
+Variable st : bool.
+Variable P : dna -> Prop.
+Hypothesis HK : 1 <= K.
+Definition both_in (w : dna) : Prop := P (cn st (firstn K w)) /\ P (cn st (skipn 1 w)).
+Lemma both_in_cn v : wf_dna v -> length v = S K -> (both_in (cn st v) <-> both_in v).
+Proof.
+  intros W L.
+  assert (Hcase : cn st v = v \/ (st = false /\ cn st v = rc v)).
+  { unfold cn. destruct st; [now left|]. destruct (canon_choice v) as [E|E]; rewrite E; auto. }
+  destruct Hcase as [->|[Hs ->]]; [reflexivity|].
+  unfold both_in. rewrite (firstn_rc_S K v L), (skipn_rc_S K v L).
+  rewrite !cn_rc_ by (auto using wf_firstn, wf_skipn). tauto.
+Qed.
+Lemma both_in_lk X s c : wf_dna X -> length X = K -> (c < 4)%N ->
+  (both_in (cn st (lk X s c)) <-> P (cn st X) /\ P (cn st (extend X c s))).
+Proof.
+  intros W L Hc. rewrite both_in_cn by (auto using lk_wf; rewrite lk_length; lia). unfold both_in.
+  destruct (lk_kmers K HK X s c L) as [[-> ->]|[-> ->]]; tauto.
+Qed.
+End BothIn.
+
+Lemma gk_seqs K st (g : list node_t) : gk K st g = flat_map (fun s => map (cn st) (kmers K s)) (g_seqs pay g).
+Proof. unfold PipelineCheck.graph_kmers, g_seqs. induction g as [|n g IH]; [reflexivity|]. cbn [flat_map map]. now rewrite IH. Qed.
+
+Section Pruned.
+Variable K : nat.
+Variable st : bool.
+Variable kj : dna -> dna -> bool.
+Variable S' : list dna.
+Variable G : list node_t.
+Hypothesis HK : 1 <= K.
+Hypothesis HG : lgraph_ok K st kj S' G.
+Hypothesis Hnd : NoDup (gk K st G).
+Variable SL : list dna.
+Local Notation inK := (fun k => In k (gk K st G)).
+Hypothesis HS : forall w, In w SL <-> In w S' /\ both_in K st inK w.
+Variable g1 : list node_t.
+Hypothesis Hp : prune pay K st G = Some g1.
+Local Notation Hwf := (lg_wf _ _ _ _ _ HG).
+
+Lemma pruned_gk : gk K st g1 = gk K st G.
+Proof. rewrite !gk_seqs. now rewrite (RecompLoose.prune_seqs pay K st G g1 Hp). Qed.
+
+Lemma pruned_nth x (n1 : node_t) : nth_error g1 x = Some n1 ->
+  exists n : node_t, nth_error G x = Some n /\ nd_seq n1 = nd_seq n /\ snd n1 = snd n /\ (nd_exts n1 < 256)%N /\
+    forall d b, (b < 4)%N ->
+      (e_has_ext (nd_exts n1) (dirb d) b = true <->
+       e_has_ext (nd_exts n) (dirb d) b = true /\ In (cn st (extend (term_kmer K (nd_seq n) d) b d)) (gk K st G)).
+Proof.
+  intro H1. assert (Lx : x < length G).
+  { pose proof (RecompLoose.prune_length pay K st G g1 Hp) as El. assert (x < length g1) by (apply nth_error_Some; congruence).
+    unfold graph, gnode, node_t in *. lia. }
+  destruct (nth_error G x) as [n|] eqn:Hx; [|apply nth_error_None in Hx; unfold graph, gnode, node_t in *; lia].
+  destruct (RecompLoose.prune_spec pay K st G g1 x n Hp Hx) as (e & He & Hlt & Hb).
+  assert (Q : Some n1 = Some (n_seq pay n, e, n_data pay n)) by (rewrite <- H1; exact He). injection Q as ->.
+  exists n. split; [reflexivity|]. split; [reflexivity|]. split; [reflexivity|]. split; [exact Hlt|].
+  intros d b Hb4. cbn [nd_exts fst snd]. rewrite (Hb d b (in_bases4 b Hb4)), andb_true_iff.
+  change (n_exts pay n) with (nd_exts n). split; intros [A B]; (split; [exact A|]).
+  - rewrite (ext_link_eq K st G x n d b Hx A) in B.
+    apply (resolves_iff K st kj S' G HK HG Hnd x n d b Hx Hb4 A). intro E. rewrite E in B. discriminate.
+  - rewrite (ext_link_eq K st G x n d b Hx A).
+    apply (resolves_iff K st kj S' G HK HG Hnd x n d b Hx Hb4 A) in B.
+    destruct (find_link pay K st G _ d); [reflexivity | congruence].
+Qed.
+Lemma pruned_in (n1 : node_t) : In n1 g1 -> exists x (n : node_t), nth_error g1 x = Some n1 /\ nth_error G x = Some n /\ In n G /\
+  nd_seq n1 = nd_seq n /\ snd n1 = snd n /\ (nd_exts n1 < 256)%N /\
+  forall d b, (b < 4)%N ->
+      (e_has_ext (nd_exts n1) (dirb d) b = true <->
+       e_has_ext (nd_exts n) (dirb d) b = true /\ In (cn st (extend (term_kmer K (nd_seq n) d) b d)) (gk K st G)).
+Proof.
+  intro H. destruct (In_nth_error _ _ H) as [x Hx]. destruct (pruned_nth x n1 Hx) as (n & Hn & A).
+  exists x, n. split; [exact Hx|]. split; [exact Hn|]. split; [now apply (nth_error_In _ x)|]. exact A.
+Qed.
+
+Lemma S_sub w : In w SL -> In w S'.
+Proof. intro H. now apply HS in H. Qed.
+
+Theorem pruned_lgraph_ok : lgraph_ok K st kj SL g1.
+Proof.
+  constructor.
+  - apply Forall_forall. intros n1 H1. destruct (pruned_in n1 H1) as (x & n & _ & _ & Hn & Es & _).
+    destruct (nwf K G Hwf n Hn) as [L W]. unfold node_wf. rewrite Es. auto.
+  - intros n1 H1. now destruct (pruned_in n1 H1) as (x & n & _ & _ & _ & _ & _ & ? & _).
+  - intros n1 [a b] H1 Hpair. cbn [fst snd]. destruct (pruned_in n1 H1) as (x & n & _ & _ & Hn & Es & _).
+    unfold inner_pairs in Hpair. rewrite Es in Hpair.
+    pose proof (lg_unb _ _ _ _ _ HG n (a, b) Hn Hpair) as Hm. cbn [fst snd] in Hm.
+    apply (in_combine_tl_nth _ []) in Hpair as (i & Hi & -> & ->). rewrite kmers_len in Hi. rewrite !kmers_nth in * by lia.
+    destruct (win_ok K G HK Hwf n i Hn ltac:(lia)) as (Lx & Wx & Nx). destruct (win_ok K G HK Hwf n (S i) Hn ltac:(lia)) as (Ly & Wy & Ny).
+    set (xx := kmer_at K (nd_seq n) i) in *. set (yy := kmer_at K (nd_seq n) (S i)) in *.
+    assert (Ix : In (cn st xx) (gk K st G)) by (apply in_gk; auto; lia).
+    assert (Iy : In (cn st yy) (gk K st G)) by (apply in_gk; auto; lia).
+    destruct (mergeable_inv st kj S' xx yy Hm) as (c & Hc & Er & El & Ey & Px & Py & Hne & Hj).
+    assert (Eyx : extend xx c DRight = yy) by (symmetry; exact Ey).
+    assert (Hc4 : (hd 0 xx < 4)%N) by (apply wf_hd; auto).
+    assert (Exy : extend yy (hd 0%N xx) DLeft = xx).
+    { rewrite <- Eyx. exact (KmerAlgebra.extend_back xx c DRight Nx). }
+    apply (mergeable_intro st kj SL xx yy c); auto.
+    + unfold rlinks in *. apply (filter_sub_single _ _ _ _ Er).
+      * intros c0 H. unfold has_link in *. rewrite existsb_dna_in in *. now apply S_sub.
+      * unfold has_link. rewrite existsb_dna_in. change (xx ++ [c]) with (lk xx DRight c). apply HS. split.
+        -- assert (H : In c (rlinks st S' xx)) by (unfold rlinks; rewrite Er; now left). now apply in_rlinks in H.
+        -- apply both_in_lk; auto. rewrite Eyx. auto.
+    + unfold llinks in *. apply (filter_sub_single _ _ _ _ El).
+      * intros c0 H. unfold has_link in *. rewrite existsb_dna_in in *. now apply S_sub.
+      * unfold has_link. rewrite existsb_dna_in. change (hd 0%N xx :: yy) with (lk yy DLeft (hd 0%N xx)). apply HS. split.
+        -- assert (H : In (hd 0%N xx) (llinks st S' yy)) by (unfold llinks; rewrite El; now left). now apply in_llinks in H.
+        -- apply both_in_lk; auto. rewrite Exy. auto.
+  - intros n1 H1 s c Hc. destruct (pruned_in n1 H1) as (x & n & _ & Hx & Hn & Es & _ & _ & Hb). rewrite Es.
+    destruct (term_ok K st kj S' G HK HG n s Hn) as (LX & WX & NX). destruct (term_at K st kj S' G HK HG n s Hn) as [EX HpX].
+    set (X := term_kmer K (nd_seq n) s) in *.
+    assert (IX : In (cn st X) (gk K st G)) by (rewrite EX; now apply in_gk).
+    destruct (lg_ends _ _ _ _ _ HG n Hn s c Hc) as [H1' H2']. fold X in H1', H2'.
+    assert (HSiff : In (cn st (lk X s c)) SL <-> In (cn st (lk X s c)) S' /\ In (cn st (extend X c s)) (gk K st G)).
+    { rewrite HS, (both_in_lk K st inK HK X s c WX LX Hc). tauto. }
+    split; intro P.
+    + rewrite (Hb s c Hc), HSiff, (H1' P). reflexivity.
+    + assert (Ln : length (nd_seq n) = K).
+      { apply (lg_pal _ _ _ _ _ HG n Hn X); [unfold X; apply term_in_kmers; [exact HK | apply (nwf K G Hwf n Hn)] | exact P]. }
+      apply kpal_iff in P as [Hs P'].
+      assert (Ez : cn st (extend (term_kmer K (nd_seq n) (dflip s)) (comp c) (dflip s)) = cn st (extend X c s)).
+      { rewrite (term_kmer_single K _ (dflip s) Ln), <- (term_kmer_single K _ s Ln). fold X.
+        rewrite P' at 1. rewrite <- KmerAlgebra.rc_extend by exact NX. apply cn_rc_; auto. now apply extend_wf. }
+      rewrite (Hb s c Hc), (Hb (dflip s) (comp c) (comp_lt4 c)), Ez, HSiff. fold X.
+      rewrite <- (H2' (proj2 (kpal_iff st X) (conj Hs P'))). tauto.
+  - intros n1 H1 w Hw P. destruct (pruned_in n1 H1) as (x & n & _ & _ & Hn & Es & _). rewrite Es in *.
+    exact (lg_pal _ _ _ _ _ HG n Hn w Hw P).
+Qed.
+
+Theorem pruned_closed w : In w SL -> both_in K st (fun k => In k (gk K st g1)) w.
+Proof. intro H. apply HS in H as [_ H]. unfold both_in in *. now rewrite pruned_gk. Qed.
+
+Theorem pruned_rvalid : rvalid pay K st g1.
+Proof. exact (RecompLoose.prune_rvalid pay K st G g1 (G_rvalid_loose K st kj S' G HK HG Hnd) Hp). Qed.
+End Pruned.
